@@ -61,11 +61,19 @@ class Gen2(M.Gen):
             v = r.choice(["_i", "_k"])
             return E(Bin("do", Bin("step", Bin("to", Bin("from", Un("for", S(v)), N(r.randint(2, 5))), N(r.randint(-1, 2))), N(-r.randint(1, 2))),
                          Code(self.mark(Var(v)), *inner)))
-        return E(Bin("do", Un("switch", self.num(0)), Code(
-            E(Bin(":", Un("case", N(r.randint(0, 3))), Code(self.mark(), *inner))),
-            E(Un("case", N(r.randint(0, 3)))),
-            E(Bin(":", Un("case", N(r.randint(0, 3))), Code(self.mark(), E(self.value_expr(0))))),
-            E(Un("default", Code(self.mark(), *inner))))))
+        # the entries in any order: the default may stand in front of a case that matches (a later match still wins), a
+        # fall-through label stands directly in front of a case with a block; sometimes there is no default or two of them
+        groups = [[E(Bin(":", Un("case", N(r.randint(0, 3))), Code(self.mark(), *inner)))],
+                  [E(Un("case", N(r.randint(0, 3)))),
+                   E(Bin(":", Un("case", N(r.randint(0, 3))), Code(self.mark(), E(self.value_expr(0)))))]]
+        if r.random() < 0.5:
+            groups.append([E(Bin(":", Un("case", N(r.randint(0, 3))), Code(self.mark(), E(self.value_expr(0)))))])
+        nd = r.choice([1, 1, 1, 1, 0, 2])
+        for _ in range(nd):
+            groups.append([E(Un("default", Code(self.mark(), *inner)))])
+        if r.random() < 0.6:
+            r.shuffle(groups)
+        return E(Bin("do", Un("switch", self.num(0)), Code(*[e for g in groups for e in g])))
 
     def stmt(self, depth):
         r = self.rng
